@@ -625,6 +625,9 @@ var modsB = map[string]string{
 		"func bx() {\n\treturn b.getx()\n}\nfunc bsetx(v) {\n\tb.setx(v)\n}\n",
 	"d/b.risor": "tick(\"d/b\")\nx := \"d/b.x0\"\n" + modAPI, // shares its short name with the top-level b
 	"e.risor":   "import b\ntick(\"e\")\nx := \"e.x0\"\nerror(\"boom\")\n",
+	// two modules in different directories whose files are byte-identical: they are still two modules
+	"t1/twin.risor": "tick(\"twin\")\nx := \"twin.x0\"\n" + modAPI,
+	"t2/twin.risor": "tick(\"twin\")\nx := \"twin.x0\"\n" + modAPI,
 }
 
 func buildEnvB() *env {
@@ -660,7 +663,7 @@ type model struct {
 func newModel() *model {
 	return &model{
 		loaded: map[string]bool{}, binds: map[string]bind{}, mutated: map[string]bool{},
-		mx:     map[string]string{"a": `"a.x0"`, "b": `"b.x0"`, "d/c": `"d/c.x0"`, "d/b": `"d/b.x0"`},
+		mx:     map[string]string{"a": `"a.x0"`, "b": `"b.x0"`, "d/c": `"d/c.x0"`, "d/b": `"d/b.x0"`, "t1/twin": `"twin.x0"`, "t2/twin": `"twin.x0"`},
 		mitems: map[string][]string{},
 		sx:     `"s.x0"`, sitems: []string{`"s"`},
 	}
@@ -792,6 +795,16 @@ var letters = []letter{
 		m.bind("c4", bind{"mod", "d/c", ""})
 		m.bind("c5", bind{"mod", "d/c", ""})
 		return "from d import c as c4, c as c5"
+	}},
+	{`import "t1/twin" as tw1 (has a byte-identical twin in t2)`, func(m *model, pos int) string {
+		m.load("t1/twin")
+		m.bind("tw1", bind{"mod", "t1/twin", ""})
+		return `import "t1/twin" as tw1`
+	}},
+	{`import "t2/twin" as tw2 (has a byte-identical twin in t1)`, func(m *model, pos int) string {
+		m.load("t2/twin")
+		m.bind("tw2", bind{"mod", "t2/twin", ""})
+		return `import "t2/twin" as tw2`
 	}},
 	{"from a import b as ab", func(m *model, pos int) string {
 		m.load("a")
@@ -999,6 +1012,15 @@ func judgeB(col *collector, idx int, c caseB, sc script, res result) (bad []stri
 		case got != want:
 			rep("module-body-run-count-differs-from-model", fmt.Sprintf("top-level code of module %q ran %d times, the model says %d", mod, got, want), tickKey, fmt.Sprint(want))
 		}
+	}
+	wantTwins := 0
+	for _, tw := range []string{"t1/twin", "t2/twin"} {
+		if sc.Loaded[tw] {
+			wantTwins++
+		}
+	}
+	if counts["twin"] != wantTwins {
+		rep("module-body-run-count-differs-from-model", fmt.Sprintf("the byte-identical twin modules ran their top-level code %d times in total, the model says %d (once per module loaded)", counts["twin"], wantTwins), tickKey, fmt.Sprint(wantTwins))
 	}
 	if res.Class != "ok" {
 		rep("import-sequence-unexpected-error:"+res.Class, "the script failed: "+res.Err, res.Err, "every statement of the generated script succeeds")
